@@ -78,11 +78,12 @@ def _random_cfg(rnd):
   return cfg
 
 
-def random_histories(seed, n):
+def random_histories(seed, n, n_cfg):
   rnd = random.Random("C15-%d" % seed)
+  pool = [_random_cfg(rnd) for _ in range(n_cfg)]      # the worker builds an engine per configuration
   out = []
   for _ in range(n):
-    cfg = _random_cfg(rnd)
+    cfg = rnd.choice(pool)
     ids = [kc["id"] for kc in cfg]
     rows = {}
     for r in rnd.sample(range(1, 6), rnd.choice((0, 1, 2, 2, 3, 4))):
@@ -137,6 +138,23 @@ def random_histories(seed, n):
       if bundle:
         steps.append(bundle)
     out.append({"cfg": cfg, "init": init, "steps": steps, "explicit_ids": rnd.random() < 0.3})
+  return out
+
+
+def _arrange(inputs, nshards):
+  """Order the histories so that fnspec.run_cases (shard i = inputs[i::nshards]) hands every worker
+  a contiguous run of the histories sorted by configuration."""
+  inputs = sorted(inputs, key=lambda h: json.dumps(h["cfg"], sort_keys=True))
+  n = len(inputs)
+  nshards = max(1, min(nshards, n))
+  sizes = [len(range(i, n, nshards)) for i in range(nshards)]
+  chunks, pos = [], 0
+  for size in sizes:
+    chunks.append(inputs[pos:pos + size])
+    pos += size
+  out = [None] * n
+  for i, chunk in enumerate(chunks):
+    out[i::nshards] = chunk
   return out
 
 
@@ -282,11 +300,10 @@ def run(ctx):
   n_cfg = len({json.dumps(h["cfg"], sort_keys=True) for h in inputs})
   ctx.log("TLC enumerated %d histories over %d configurations in %.1fs (%d distinct states): %s"
           % (len(inputs), n_cfg, model["wall"], model["distinct"], by_len))
-  extra = random_histories(ctx.seed, 2500 if ctx.quick else 40000)
-  extra.sort(key=lambda h: json.dumps(h["cfg"], sort_keys=True))     # the worker rebuilds T per configuration
+  extra = random_histories(ctx.seed, 2500 if ctx.quick else 40000, 24 if ctx.quick else 96)
   t0 = time.time()
-  files = fnspec.run_cases(WORKER, inputs, ctx.workdir, nshards=SHARDS[ctx.tier], tag="enum") + \
-          fnspec.run_cases(WORKER, extra, ctx.workdir, nshards=SHARDS[ctx.tier], tag="rand")
+  todo = _arrange(inputs + extra, SHARDS[ctx.tier])
+  files = fnspec.run_cases(WORKER, todo, ctx.workdir, nshards=SHARDS[ctx.tier])
   ctx.log("the real engine ran %d histories in %.1fs" % (len(inputs) + len(extra), time.time() - t0))
   viol, n, steps, wall = judge(files, ctx.workdir)
   ctx.log("TLC judged %d histories / %d bundles in %.1fs" % (n, steps, wall))
@@ -332,16 +349,12 @@ def replay(ctx, data):
 
 
 # ---------------------------------------------------------------------------------------------
-# Matchers for the defects of the unchanged tree.  A violation is recognised only if EVERY failing
-# cell of the failing bundle shows exactly the defect's behaviour.
+# Matchers for the defects of the unchanged tree.  Every failing cell of the failing bundle must show
+# the behaviour of one of the known defects (exactly one spurious evaluation of a supplied value /
+# no evaluation next to a schema change), and at least one of them the defect the matcher names.
 # ---------------------------------------------------------------------------------------------
-def _ctx(v):
-  case, n = v["case"], v["step"]
-  cfg = {kc["id"]: kc for kc in case["inp"]["cfg"]}
-  order = [kc["id"] for kc in case["inp"]["cfg"]]
-  bundle = case["inp"]["steps"][n - 1]
-  after = {x["r"]: x for x in case["out"][n]["rows"]}
-  return cfg, order, bundle, after
+def _self_dep(kc):
+  return kc["when"] == DEFAULT and kc["id"] in kc["deps"]
 
 
 def _supplied(a, col):
@@ -351,65 +364,79 @@ def _supplied(a, col):
   return None
 
 
-def _last_supply(bundle, r, col):
-  """(index, action) of the last action of the bundle that names row r, if it supplies col"""
-  idx = [i for i, a in enumerate(bundle) if a["op"] in ("Add", "Upd", "Rem") and a["r"] == r]
-  if not idx:
-    return None
-  a = bundle[idx[-1]]
-  if a["op"] == "Rem" or _supplied(a, col) is None:
-    return None
-  return idx[-1], a
+def _kept_cell_classes(v, cell):
+  """the defects that explain one cell that failed C15.kept (a supplied value was not kept)"""
+  case, n = v["case"], v["step"]
+  cfg = {kc["id"]: kc for kc in case["inp"]["cfg"]}
+  order = [kc["id"] for kc in case["inp"]["cfg"]]
+  bundle = case["inp"]["steps"][n - 1]
+  before = {x["r"]: x for x in case["out"][n - 1]["rows"]}
+  after = {x["r"]: x for x in case["out"][n]["rows"]}
+  r, col = cell["r"], cell["col"]
+  kc = cfg.get(col)
+  if kc is None or r not in after or _self_dep(kc):
+    return set()
+  j = order.index(col)
+  mine = [(i, a) for i, a in enumerate(bundle) if a["op"] in ("Add", "Upd", "Rem") and a["r"] == r]
+  sup = [(i, a) for i, a in mine if a["op"] != "Rem" and _supplied(a, col) is not None]
+  if not sup:
+    return set()
+  i, a = sup[-1]
+  x = _supplied(a, col)
+  if after[r]["k"][j] != x + 1:           # exactly one evaluation on top of the supplied value
+    return set()
+  # the value the cell physically holds when action i starts (evaluations happen at the end of the bundle)
+  had = before[r]["k"][j] if r in before else None
+  for _i2, b in [m for m in mine if m[0] < i]:
+    if b["op"] == "Rem":
+      had = None
+    elif _supplied(b, col) is not None:
+      had = _supplied(b, col)
+    elif b["op"] == "Add":
+      had = 0
+  out = set()
+  readded = any(b["op"] == "Add" for i2, b in mine if i2 < i)      # a stale pending evaluation of the row id
+  if a["op"] == "Add" and kc["when"] != NEVER and \
+     ((kc["when"] == DEFAULT and [d for d in kc["deps"] if d != col]) or readded):
+    out.add("add")
+  if a["op"] == "Upd" and had == x and kc["when"] != NEVER:
+    out.add("same")
+  if i < len(bundle) - 1 and kc["when"] != NEVER:
+    out.add("later")
+  return out
 
 
-def _self_dep(kc):
-  return kc["when"] == DEFAULT and kc["id"] in kc["deps"]
+def _kept_matcher(name):
+  def match(v):
+    if v["clause"] != "C15.kept" or not v.get("cells"):
+      return False
+    classes = [_kept_cell_classes(v, cell) for cell in v["cells"]]
+    return all(classes) and any(name in c for c in classes)
+  return match
 
 
-def _m_add_supplied_overwritten(v):
-  """AddRecord supplies a value x for a DEFAULT trigger column with recalcDeps (not itself): the new
-  row's dependency cells invalidate the column, nothing calls prevent_recalc in the add path: x + 1."""
-  if v["clause"] != "C15.kept" or not v.get("cells"):
+def _m_schema_change_in_bundle(v):
+  """A bundle holds a RenameColumn / ModifyColumn of the dependency A next to a record action that has
+  to trigger: trigger edges are only rebuilt at the end of the bundle (updates after the schema
+  change meet no edge; F pending for ALL_ROWS swallows the row), and rewriting the trigger formula
+  on rename drops the pending recalculation: the cell is not recalculated."""
+  if v["clause"] != "C15.must" or not v.get("cells"):
     return False
-  cfg, order, bundle, after = _ctx(v)
-  for cell in v["cells"]:
-    kc = cfg.get(cell["col"])
-    hit = _last_supply(bundle, cell["r"], cell["col"])
-    if kc is None or hit is None or cell["r"] not in after:
-      return False
-    _i, a = hit
-    if a["op"] != "Add" or kc["when"] != DEFAULT or _self_dep(kc) or not [d for d in kc["deps"] if d != kc["id"]]:
-      return False
-    if after[cell["r"]]["k"][order.index(cell["col"])] != _supplied(a, cell["col"]) + 1:
-      return False
-  return True
-
-
-def _m_supplied_lost_to_later_action(v):
-  """UpdateRecord supplies x for a trigger column and also gives it a reason to recalculate (a
-  recalcDeps cell changes / MANUAL_UPDATES); a LATER user action of the same bundle (not naming that
-  row) clears Engine._prevent_recompute_map before the bundle is calculated: x + 1."""
-  if v["clause"] != "C15.kept" or not v.get("cells"):
-    return False
-  cfg, order, bundle, after = _ctx(v)
-  for cell in v["cells"]:
-    kc = cfg.get(cell["col"])
-    hit = _last_supply(bundle, cell["r"], cell["col"])
-    if kc is None or hit is None or cell["r"] not in after:
-      return False
-    i, a = hit
-    if a["op"] != "Upd" or i == len(bundle) - 1 or _self_dep(kc) or kc["when"] == NEVER:
-      return False
-    earlier = [b for b in bundle[:i + 1] if b["op"] in ("Add", "Upd") and b["r"] == cell["r"]]
-    if kc["when"] == DEFAULT and not any(_supplied(b, "A" if d == "F" else d) is not None
-                                         for b in earlier for d in kc["deps"] if d != kc["id"]):
-      return False
-    if after[cell["r"]]["k"][order.index(cell["col"])] != _supplied(a, cell["col"]) + 1:
-      return False
-  return True
+  bundle = v["case"]["inp"]["steps"][v["step"] - 1]
+  ops = [a["op"] for a in bundle]
+  return any(o in ("Ren", "Mod") for o in ops) and any(o in ("Add", "Upd") for o in ops)
 
 
 MATCHERS = {
-  "c15_add_supplied_overwritten": _m_add_supplied_overwritten,
-  "c15_supplied_lost_to_later_action": _m_supplied_lost_to_later_action,
+  # AddRecord supplies x for a DEFAULT trigger column with recalcDeps (not itself): the new row's
+  # dependency cells invalidate the column and nothing calls prevent_recalc in the add path: x + 1
+  # (also: the row id was added and removed earlier in the bundle, its evaluation is still pending)
+  "c15_add_supplied_overwritten": _kept_matcher("add"),
+  # a user action supplies x (prevent_recalc) while the cell is due for recalculation; a LATER user action
+  # of the same bundle clears Engine._prevent_recompute_map before the bundle is calculated: x + 1
+  "c15_supplied_lost_to_later_action": _kept_matcher("later"),
+  # UpdateRecord supplies the value the cell already holds plus a reason to recalculate:
+  # trim_update_action drops the unchanged cell, so prevent_recalc is never called for it: x + 1
+  "c15_same_value_supply_dropped": _kept_matcher("same"),
+  "c15_schema_change_in_bundle": _m_schema_change_in_bundle,
 }
